@@ -49,6 +49,32 @@ type Env struct {
 	tmp   string
 }
 
+// DiskScratch is a scratch directory on disk (for files too large for the tmpfs scratch).
+func DiskScratch() string {
+	if d := os.Getenv("PVH_SCRATCH_DISK"); d != "" {
+		return d
+	}
+	return ScratchRoot()
+}
+
+// NewEnvIn is NewEnv with an explicit scratch root for real file systems.
+func NewEnvIn(kind FSKind, root string) *Env {
+	if kind != FSOS && kind != FSOSMMap {
+		return NewEnv(kind)
+	}
+	tmp, err := os.MkdirTemp(root, "pvh-")
+	if err != nil {
+		panic(err)
+	}
+	e := &Env{Kind: kind, tmp: tmp, Dir: filepath.Join(tmp, "db")}
+	if kind == FSOS {
+		e.FS = fs.OS
+	} else {
+		e.FS = fs.OSMMap
+	}
+	return e
+}
+
 // NewEnv creates a fresh, empty database location.
 func NewEnv(kind FSKind) *Env {
 	n := atomic.AddInt64(&envCounter, 1)
